@@ -55,19 +55,20 @@ const (
 )
 
 type runner struct {
-	env     *core.Env
-	res     *core.Result // nil when replaying / minimising
-	b       *body
-	ch      *chooser
-	mode    int
-	root    string
-	imgSeq  int
-	opsHash uint64
-	runHash uint64
-	sig     string
-	msg     string
-	trace   []string
-	verbose bool
+	env                 *core.Env
+	res                 *core.Result // nil when replaying / minimising
+	b                   *body
+	ch                  *chooser
+	mode                int
+	root                string
+	imgSeq              int
+	opsHash             uint64
+	runHash             uint64
+	sig                 string
+	msg                 string
+	trace               []string
+	verbose             bool
+	lastOp              [2]int // last op index (per level) an image was judged in
 	noLevel2, noCorrupt bool
 }
 
